@@ -459,6 +459,112 @@ def _bodyless_worker(part, chunk):
             part.violation(sig, msg, {"bodyless": [entry, s], "signature": sig})
 
 
+# ---- phase 5: TWO text hosts of one kind in one session --------------------------------------------------------
+# Text assigned to one shape / cell is read back from THAT host whatever was assigned to another host of the same kind
+# before or after it (a template element, default body or cache shared between two hosts shows only when both are
+# touched in one process). Hosts: auto shapes, text boxes, table cells, placeholders on two slides, and the two forms
+# other producers write: p:sp without p:txBody, a:tc without a:txBody. Histories: A,B and A,B,A over two entry points.
+
+TWIN_KINDS = ["autoshape", "textbox", "cell", "title-on-two-slides", "sp-without-txBody", "tc-without-txBody",
+              "picture-placeholder-on-two-slides"]
+TWIN_ENTRIES = ["text", "text_frame.text"]
+TWIN_HISTS = ["AB", "ABA"]
+TWIN_TEXTS = {"A": "first host", "B": "second\nhost", "A2": "first again"}
+
+
+def _twin_hosts(prs, kind):
+    """-> two callables locating host A and host B in `prs` (so that they can be re-located after a re-open)."""
+    if kind in ("cell", "tc-without-txBody"):
+        return (lambda d: d.slides[0].shapes[0].table.cell(0, 0)), (lambda d: d.slides[0].shapes[0].table.cell(1, 1))
+    if kind in ("title-on-two-slides",):
+        return (lambda d: d.slides[0].shapes.title), (lambda d: d.slides[1].shapes.title)
+    if kind == "picture-placeholder-on-two-slides":
+        pick = lambda sl: [p for p in sl.placeholders if p.placeholder_format.idx == 1][0]
+        return (lambda d: pick(d.slides[0])), (lambda d: pick(d.slides[1]))
+    return (lambda d: d.slides[0].shapes[0]), (lambda d: d.slides[0].shapes[1])
+
+
+def _twin_deck(kind):
+    from pptx import Presentation
+    from pptx.enum.shapes import MSO_SHAPE
+    from pptx.util import Emu
+    prs = Presentation()
+    E = Emu(914400)
+    if kind in ("title-on-two-slides", "picture-placeholder-on-two-slides"):
+        lay = prs.slide_layouts[0 if kind.startswith("title") else 8]
+        prs.slides.add_slide(lay)
+        prs.slides.add_slide(lay)
+        return prs
+    slide = prs.slides.add_slide(prs.slide_layouts[6])
+    if kind in ("cell", "tc-without-txBody"):
+        gf = slide.shapes.add_table(2, 2, Emu(0), Emu(0), E, E)
+        if kind == "tc-without-txBody":
+            for tc in gf.element.iter("{%s}tc" % A_NS):
+                for body in tc.findall("{%s}txBody" % A_NS):
+                    tc.remove(body)
+    elif kind == "textbox":
+        slide.shapes.add_textbox(0, 0, E, E)
+        slide.shapes.add_textbox(E, E, E, E)
+    else:
+        a = slide.shapes.add_shape(MSO_SHAPE.RECTANGLE, 0, 0, E, E)
+        b = slide.shapes.add_shape(MSO_SHAPE.RECTANGLE, E, E, E, E)
+        if kind == "sp-without-txBody":
+            P_NS = "http://schemas.openxmlformats.org/presentationml/2006/main"
+            for sp in (a, b):
+                for body in sp.element.findall("{%s}txBody" % P_NS):
+                    sp.element.remove(body)
+    if kind.endswith("without-txBody"):
+        buf = io.BytesIO()
+        prs.save(buf)
+        prs = Presentation(io.BytesIO(buf.getvalue()))     # the deck as another producer would have written it
+    return prs
+
+
+def twin_case(kind, entry, hist):
+    """-> failure message or None."""
+    from pptx import Presentation
+    prs = _twin_deck(kind)
+    la, lb = _twin_hosts(prs, kind)
+
+    def put(host, s):
+        if entry == "text":
+            host.text = s
+        else:
+            host.text_frame.text = s
+
+    want = {}
+    try:
+        a, b = la(prs), lb(prs)
+        put(a, TWIN_TEXTS["A"]); want["A"] = TWIN_TEXTS["A"]
+        put(b, TWIN_TEXTS["B"]); want["B"] = TWIN_TEXTS["B"]
+        if hist == "ABA":
+            put(a, TWIN_TEXTS["A2"]); want["A"] = TWIN_TEXTS["A2"]
+        got = {"A": la(prs).text_frame.text, "B": lb(prs).text_frame.text}
+    except Exception as e:  # noqa: BLE001
+        return "%s hosts, %s, history %s: raised %r" % (kind, entry, hist, e)
+    if got != want:
+        return "%s hosts, %s, history %s: hosts read %r, assigned %r" % (kind, entry, hist, got, want)
+    buf = io.BytesIO()
+    prs.save(buf)
+    d2 = Presentation(io.BytesIO(buf.getvalue()))
+    got2 = {"A": la(d2).text_frame.text, "B": lb(d2).text_frame.text}
+    if got2 != want:
+        return "%s hosts, %s, history %s: after save and re-open hosts read %r, assigned %r" % (kind, entry, hist, got2, want)
+    return None
+
+
+def _twin_worker(part, chunk):
+    for kind, entry, hist in chunk:
+        msg = twin_case(kind, entry, hist)
+        part.count("evaluations")
+        part.count("twin_host_cases")
+        part.count("nontrivial_count")
+        part.outcome("two-hosts:" + kind, "ok" if msg is None else "fail")
+        if msg:
+            sig = "C04|getter|two-hosts=%s|entry=%s" % (kind, entry)
+            part.violation(sig, msg, {"twin": [kind, entry, hist], "signature": sig})
+
+
 # ---- batched save / re-open ------------------------------------------------------------------------------
 
 def batch_roundtrip(entries):
@@ -774,6 +880,12 @@ def run(ctx):
     if ctx.counters.get("bodyless_cases", 0) != exp4:
         raise HarnessError("bodyless cases %d != %d" % (ctx.counters.get("bodyless_cases", 0), exp4))
 
+    # phase 5: two hosts of one kind in one session
+    witems = [(k, e, h) for k in TWIN_KINDS for e in TWIN_ENTRIES for h in TWIN_HISTS]
+    fanout(ctx, _twin_worker, ctx.rotate(witems), chunk_size=len(witems), min_parallel=1)
+    if ctx.counters.get("twin_host_cases", 0) != len(witems):
+        raise HarnessError("two-host cases %d != %d" % (ctx.counters.get("twin_host_cases", 0), len(witems)))
+
     ctx.extra["strings_enumerated"] = len(exh)
     ctx.extra["strings_extra"] = len(EXTRA)
     ctx.extra["strings_lookalike_not_judged"] = len(LOOKALIKE)
@@ -782,8 +894,8 @@ def run(ctx):
     ctx.extra["pair_string_pairs"] = exp2 // (len(PRIORS) * 16)
     ctx.extra["levels"] = LEVELS
     ctx.extra["prior_states"] = PRIOR_NAMES
-    if ctx.counters["evaluations"] != exp1 + exp2 + exp3 + exp4:
-        raise HarnessError("evaluations %d != %d" % (ctx.counters["evaluations"], exp1 + exp2 + exp3 + exp4))
+    if ctx.counters["evaluations"] != exp1 + exp2 + exp3 + exp4 + len(witems):
+        raise HarnessError("evaluations %d != %d" % (ctx.counters["evaluations"], exp1 + exp2 + exp3 + exp4 + len(witems)))
 
 
 # ---- replay ---------------------------------------------------------------------------------------------------------
@@ -792,6 +904,8 @@ def replay(data):
     """Rebuild the case from scratch in a fresh presentation: prior state, the assignment(s), all checks on
     the last assignment, then two real save / re-open cycles of that very presentation."""
     from pptx import Presentation
+    if data.get("twin"):
+        return twin_case(*data["twin"])
     if data.get("bodyless"):
         return bodyless_case(*data["bodyless"])
     H = Hosts()
